@@ -79,6 +79,14 @@ impl<'a> Gen<'a> {
         }
     }
 
+    /// start numbering sites, tags, handles and counters at `base` (second program of a case)
+    pub fn offset_ids(&mut self, base: u32) {
+        self.site = base;
+        self.tag = base;
+        self.handle = base;
+        self.counter = base;
+    }
+
     fn site(&mut self) -> u32 {
         self.site += 1;
         self.site - 1
